@@ -936,7 +936,13 @@ class ExcelCompiler:
                         self._gen_graph(ref_addr)
 
                     # the cell referred to may not have been calculated yet
-                    value = self._evaluate(ref_addr)
+                    try:
+                        value = self._evaluate(ref_addr)
+                    except Exception:
+                        if self.cycles:
+                            # eval() marked this cell as work in progress
+                            cell.wip = False
+                        raise
                 else:
                     self.log.info(
                         f"Cell {cell.address} evaluated to '{value}' ({type(value).__name__})")
